@@ -81,7 +81,17 @@ def check(run, repo, world):
     for mm in ("nomap", "none", "type"):
         I, res = decode_all(world, rx, folder, 24, mm)
         for (v, st) in res:
-            if isinstance(v, Raise) or not isinstance(v, Ref):
+            if isinstance(v, Raise):
+                if lane_val(st, ("in", 16)) == 0:
+                    run.ob("R-EVT-SCHEME", "%s#raise:%s" % (
+                        mm, str(v.exc)[:50]), False,
+                        "decoding an event message raises `%s` for frames "
+                        "with %s: every event frame must come back as an "
+                        "event object (unknown type / information -> "
+                        "generic event)" % (v.exc, cube_str(st)),
+                        where(mod, ev.node))
+                continue
+            if not isinstance(v, Ref):
                 continue
             o = st.d(v)
             if not isinstance(o, Obj) or o.cls is None or ev not in o.cls.mro:
@@ -142,6 +152,11 @@ def check(run, repo, world):
                                     "map's answer %r" % (it, itv))
             # event data lanes
             data = _event_data_lanes(st, o)
+            if data is None and o.cls.name in ("UnknownEvent",
+                                               "AmbiguousInstanceType"):
+                problems.append("the generic event does not carry its ten "
+                                "event-information bits (event_data is "
+                                "undefined)")
             if data is not None:
                 e = lanes_match(st, data, _field_lanes(9, 0))
                 if e:
@@ -225,36 +240,83 @@ def check(run, repo, world):
     mp = world.cls(HLP + ".DeviceInstanceTypeMapper")
     hmod = repo.mod(HLP)
 
-    def norm_stmts(fn):
-        out = []
-        for s in fn.body:
-            if isinstance(s, ast.If) and unparse(s.test).startswith(
-                    "isinstance(") and any(
-                        p in unparse(s.test) for p in ("short_address",
-                                                       "instance_number")):
-                out.append(unparse(s))
+    from .. import paths
+    from ..normal import normalise
+
+    def summarise(fn, want):
+        """{frozenset of isinstance outcomes: (key text, value text)}"""
+        fn2 = normalise(fn, world, HLP, mp, aliases=False)
+        out = {}
+        for p_ in paths.summaries(fn2):
+            conds = frozenset((unparse(t, 200), b) for (t, b) in p_.conds
+                              if unparse(t).startswith("isinstance("))
+            other = [(unparse(t, 200), b) for (t, b) in p_.conds
+                     if not unparse(t).startswith("isinstance(")]
+            key = val = None
+            if want == "store":
+                for (tg, v) in p_.effects:
+                    if tg.startswith("self._mapping["):
+                        key, val = tg[len("self._mapping["):-1], unparse(v,
+                                                                         200)
+            else:
+                e = p_.expr
+                if p_.kind == "return" and isinstance(e, ast.Call) and \
+                        unparse(e.func) == "self._mapping.get" and (
+                            len(e.args) == 1 or unparse(e.args[1]) == "None"):
+                    key = unparse(e.args[0], 200)
+            out[(conds, tuple(other))] = (key.strip("()") if key else None,
+                                          val)
         return out
     a, g = mp.methods["add_type"][1], mp.methods["get_type"][1]
-    na, ng = norm_stmts(a), norm_stmts(g)
-    key_a = [unparse(n.targets[0]) for n in ast.walk(a) if isinstance(
-        n, ast.Assign) and "_mapping[" in unparse(n.targets[0])]
-    key_g = [unparse(c.args[0]) for c in ast.walk(g) if isinstance(
-        c, ast.Call) and unparse(c.func) == "self._mapping.get"]
+    sa, sg = summarise(a, "store"), summarise(g, "get")
+    # per combination of isinstance outcomes on the two key parts
+    ka = {}
+    for (conds, other), (key, val) in sa.items():
+        kc = frozenset(c for c in conds if "instance_type" not in c[0]
+                       or "instance_type," not in c[0])
+        kc = frozenset(c for c in conds if c[0].startswith(
+            "isinstance(short_address") or c[0].startswith(
+                "isinstance(instance_number"))
+        ka.setdefault(kc, set()).add(key)
+    kg = {}
+    for (conds, other), (key, val) in sg.items():
+        kc = frozenset(c for c in conds if c[0].startswith(
+            "isinstance(short_address") or c[0].startswith(
+                "isinstance(instance_number"))
+        kg.setdefault(kc, set()).add(key)
+    want_keys = {
+        frozenset({("isinstance(short_address, DeviceShort)", True),
+                   ("isinstance(instance_number, InstanceNumber)", True)}):
+        {"short_address.address, instance_number.value"},
+        frozenset({("isinstance(short_address, DeviceShort)", True),
+                   ("isinstance(instance_number, InstanceNumber)", False)}):
+        {"short_address.address, instance_number"},
+        frozenset({("isinstance(short_address, DeviceShort)", False),
+                   ("isinstance(instance_number, InstanceNumber)", True)}):
+        {"short_address, instance_number.value"},
+        frozenset({("isinstance(short_address, DeviceShort)", False),
+                   ("isinstance(instance_number, InstanceNumber)", False)}):
+        {"short_address, instance_number"}}
     run.ob("R-EVT-MAP", mp.qname + "#same-normalisation",
-           na == ng and len(na) == 2 and key_a ==
-           ["self._mapping[short_address, instance_number]"] and key_g ==
-           ["(short_address, instance_number)"],
-           "add_type normalises with %s and stores under %s; get_type "
-           "normalises with %s and looks up %s" % (na, key_a, ng, key_g),
-           where(hmod, a),
-           sample={"rule": "R-EVT-MAP", "normalisation": na})
-    t = ast.unparse(a)
-    run.ob("R-EVT-MAP", mp.qname + ".add_type#type-normalisation",
-           "if hasattr(instance_type, 'instance_type'):" in t and
-           "instance_type = int(instance_type.instance_type)" in t and
-           "instance_type = int(instance_type)" in t,
+           ka == kg == want_keys,
+           "add_type stores under %s; get_type looks up %s; both must turn "
+           "a DeviceShort / InstanceNumber into its number and leave an int "
+           "as it is" % (_show_keys(ka), _show_keys(kg)), where(hmod, a),
+           sample={"rule": "R-EVT-MAP", "keys": _show_keys(ka)})
+    # the stored type: int(module.instance_type) or int(value)
+    vals = {}
+    for (conds, other), (key, val) in sa.items():
+        has = [b for (t, b) in other if t ==
+               "hasattr(instance_type, 'instance_type')"]
+        vals.setdefault(tuple(has), set()).add(val)
+    okv = vals in (
+        {(True,): {"int(instance_type.instance_type)"},
+         (False,): {"int(instance_type)"}},
+        {(): {"int(getattr(instance_type, 'instance_type', "
+              "instance_type))"}})
+    run.ob("R-EVT-MAP", mp.qname + ".add_type#type-normalisation", okv,
            "instance types must be accepted as ints or as modules carrying "
-           "`instance_type`", where(hmod, a))
+           "`instance_type`; stored values: %s" % vals, where(hmod, a))
     writers = set()
     for name, (kind, f2) in mp.methods.items():
         for n in ast.walk(f2):
@@ -265,6 +327,11 @@ def check(run, repo, world):
            writers <= {"__init__", "add_type", "clear"},
            "_mapping is written by %s" % sorted(writers), where(hmod,
                                                                  mp.node))
+
+
+def _show_keys(k):
+    return sorted((sorted("%s%s" % ("" if b else "not ", t) for t, b in c),
+                   sorted(str(x) for x in v)) for c, v in k.items())
 
 
 def _event_data_lanes(st, o):
